@@ -167,6 +167,31 @@ def do_case(c):
             e = err(ex)['error']
         return {'reads': [None if a is None else {'name': a.query_name, 'tags': read_tags(a)} for a in reads],
                 'raised': e, 'read_groups': sorted(q.assignedReadGroups)}
+    if f == 'history':            # ONE QueryNameFlagger digesting a sequence of calls (as MoleculeIterator uses it)
+        q = QueryNameFlagger()
+        calls = []
+        for call in c['calls']:
+            reads = [None if r is None else new_read(r[0], r[1]) for r in call]
+            e = None
+            try:
+                q.digest(reads)
+            except BaseException as ex:
+                e = err(ex)['error']
+            alone = []
+            for r in call:                      # the same read through a fresh flagger
+                if r is None:
+                    alone.append(None)
+                    continue
+                a = new_read(r[0], r[1])
+                e1 = None
+                try:
+                    QueryNameFlagger().digest([a])
+                except BaseException as ex:
+                    e1 = err(ex)['error']
+                alone.append({'name': a.query_name, 'tags': read_tags(a), 'raised': e1})
+            calls.append({'reads': [None if a is None else {'name': a.query_name, 'tags': read_tags(a)} for a in reads],
+                          'raised': e, 'alone': alone})
+        return {'calls': calls, 'read_groups': sorted(q.assignedReadGroups)}
     if f == 'chain':              # strategy.demultiplex -> asFastq -> header -> AlignedSegment -> digest -> tags
         x = ctx()
         st = x[{'idx': 'strategies', 'noidx': 'strategies_noidx', 'hd1': 'strategies_hd1'}[c.get('ctx') or ('idx' if c.get('parser', True) else 'noidx')]][c['strategy']]
